@@ -9,8 +9,8 @@
                non-empty; a field whose extension is not sent has its zero value; ...) *)
 From Coq Require Import List NArith Bool Arith.
 From Verif Require Import Harness WireTLS.
-From VerifModel Require Import C30.
-From VerifProof Require Import C30Proofs C30ExtProofs.
+From VerifModel Require Import C30 C30Direct.
+From VerifProof Require Import C30Proofs C30ExtProofs C30DirectProofs.
 Import ListNotations.
 Open Scope N_scope.
 
@@ -65,6 +65,18 @@ Theorem C30_hello_prefixes : forall m e p q,
    exists b, hello_base_enc m = Some b /\ length p = (4 + length b)%nat).
 Proof. exact hello_prefixes. Qed.
 Print Assumptions C30_hello_prefixes.
+
+(* the index-arithmetic decoders, mirrored statement by statement (model/C30Direct.v), accept exactly the
+   inputs and produce exactly the values of the DSL formats by which the model describes them *)
+Theorem C30_key_exchange_direct_mirror : forall t s,
+  dec_all (FPair (FSkip [t]) (FBytes 3 false)) s = option_map (fun b => VP VU (VB b)) (dec_kx_direct s).
+Proof. exact kx_direct_eq. Qed.
+Print Assumptions C30_key_exchange_direct_mirror.
+
+Theorem C30_new_session_ticket_direct_mirror : forall s,
+  dec_all fmt_nst s = option_map (fun x => VP VU (VP (VN (fst x)) (VB (snd x)))) (dec_nst_direct s).
+Proof. exact nst_direct_eq. Qed.
+Print Assumptions C30_new_session_ticket_direct_mirror.
 
 (* the domain is inhabited by messages that use every extension; a value outside it
    (certificate list ending in an empty certificate) indeed does not round-trip *)
